@@ -97,6 +97,7 @@ type thr struct {
 	// it is still parked at "wait": the probe is not a choice; the arrival is held back until resume(t) is chosen.
 	probed bool
 	waitID string // the log id it waits for (kv of the "wait" point)
+	entryID string // the id of the log entry the request built (kv of its "wait" point; not for previews)
 	selected string // which branch of the lock select it took last: lock.select.done | lock.select.acquired
 	// failNext: armed by the choice read_fail(t): the next store read of this request fails with ErrTransient.
 	// readFailed: a read has just been failed; the yield point that directly follows a failed read ("ik.lookup",
@@ -201,6 +202,14 @@ func (s *Sched) consumeFail(ctx context.Context, kind string) bool {
 	if !ok || tid < 0 || tid >= len(s.threads) {
 		return false
 	}
+	if t := s.threads[tid]; t.entryID != "" && s.persisted(t.entryID) {
+		// the request's own entry is on disk: the unchanged write path reads nothing any more. A read here is between
+		// persistence and the answer; it fails (connection lost), and the answer must still be the success it is.
+		s.mu.Lock()
+		s.Trace = append(s.Trace, Event{Tid: tid, Point: "store.read.after-own-persistence.failed", KV: map[string]string{"kind": kind}})
+		s.mu.Unlock()
+		return true
+	}
 	s.mu.Lock()
 	defer s.mu.Unlock()
 	t := s.threads[tid]
@@ -291,6 +300,9 @@ func (s *Sched) yield(ctx context.Context, point string, kv ...any) {
 		return
 	}
 	t := s.threads[tid]
+	if point == "wait" && m["dry"] != "true" {
+		t.entryID = m["id"] // set and read by the request's own goroutine only
+	}
 	if t.readFailed {
 		t.readFailed = false // only the first parking point after the failed read
 		if afterFailedRead[point] {
